@@ -118,6 +118,9 @@ func SolveAll(g *Gen, header string, results []*FnResult, outDir string, par int
 			if short > 1 {
 				short = 1 // most obligations take z3-new a few hundredths of a second; everything else is raced below
 			}
+			if v := os.Getenv("GOVC_SHORT"); v != "" {
+				fmt.Sscanf(v, "%d", &short)
+			}
 			// stage 1: z3-new in its default and in its plain E-matching configuration side by side (one pool
 			// slot); the first "unsat" wins and stops the other
 			type r1 struct {
@@ -128,7 +131,16 @@ func SolveAll(g *Gen, header string, results []*FnResult, outDir string, par int
 			}
 			ctx1, cancel1 := context.WithCancel(context.Background())
 			ch1 := make(chan r1, 2)
-			for _, s := range []solverSpec{solvers[0], solvers[3]} {
+			// one process per pool slot in stage 1: the plain E-matching configuration decides almost everything that
+			// is decidable quickly; the default configuration joins the race of stage 2 (GOVC_STAGE1=both|auto to compare)
+			stage1 := []solverSpec{solvers[3]}
+			switch os.Getenv("GOVC_STAGE1") {
+			case "both":
+				stage1 = []solverSpec{solvers[0], solvers[3]}
+			case "auto":
+				stage1 = []solverSpec{solvers[0]}
+			}
+			for _, s := range stage1 {
 				go func(s solverSpec) {
 					st, o, secs := runSolverCtx(ctx1, s, file, short)
 					ch1 <- r1{s, st, o, secs}
@@ -136,7 +148,7 @@ func SolveAll(g *Gen, header string, results []*FnResult, outDir string, par int
 			}
 			var st, o string
 			var secs float64
-			for k := 0; k < 2; k++ {
+			for k := 0; k < len(stage1); k++ {
 				r := <-ch1
 				sr.Tried = append(sr.Tried, fmt.Sprintf("%s:%s:%.2fs", r.s.name, r.st, r.secs))
 				if k == 0 || r.st == "unsat" || (r.st == "sat" && st != "unsat") {
